@@ -100,7 +100,7 @@ def node_order(nch: int, r0: bool, r1: bool, r2: bool, r3: bool, fail: int, fkin
 
 def _names(a, b, c, probe, l):
     return {'a': a, 'b': b, 'c': c, 't': probe, 'l': l, 'zero': 0, 'one': 1, 'f': lambda *x: len(x),
-            'boom': None}
+            'boom': None, 'dd': {'k': 1}}
 
 
 class P:
@@ -151,6 +151,13 @@ TEMPLATES = [
     ("t(1, zero) not in [t(2, zero), t(3)]", lambda a, b, c: [1, 2, 3]),
     ("[t(1, zero)] in [[t(2, zero)], [t(3)]]", lambda a, b, c: [1, 2, 3]),
     ("t(1, 'k') in {t(2, 'k'): t(3), t(4, 'j'): t(5)}", lambda a, b, c: [1, 2, 3, 4, 5]),
+    # slices with a computed bound next to a literal one; three-argument get: every argument is evaluated, before the call
+    ("t(1, l)[t(2, zero):1]", lambda a, b, c: [1, 2]),
+    ("t(1, l)[zero:t(2, one)]", lambda a, b, c: [1, 2]),
+    ("[zero, one] | map(v => t(1, l)[t(2, v):2]) | len", lambda a, b, c: [1, 2, 1, 2]),
+    ("get(t(1, dd), t(2, 'k'), t(3))", lambda a, b, c: [1, 2, 3]),
+    ("get(t(1, dd), t(2, 'zz'), t(3))", lambda a, b, c: [1, 2, 3]),
+    ("t(1, dd) | get(t(2, 'k'), t(3))", lambda a, b, c: [1, 2, 3]),
     # dict literals: every key and value expression is evaluated, also for keys that repeat
     ("{'a': t(1), 'b': t(2), 'a': t(3)}", lambda a, b, c: [1, 2, 3]),
     ("{1: t(1), '1': t(2), 1.0: t(3)}", lambda a, b, c: [1, 2, 3]),
@@ -181,6 +188,8 @@ def api_order(a: int, b: int, c: bool, fail: int) -> None:
     hlib.enter(locals())
     text, expf = TEMPLATES[hlib.PARAM["t"]]
     p = P(fail)
+    # the same tree may have been evaluated before (parse cache, lambda bodies): evaluate it once beforehand
+    run_eval(text, _names(a, b, c, P(fail), [10, 20]), 10**6)
     out = run_eval(text, _names(a, b, c, p, [10, 20]), 10**6)
     exp = expf(a, b, c)
     if fail in exp:
